@@ -348,6 +348,27 @@ _REAL = {n: getattr(_threading, n) for n in ('Thread', 'Event', 'Lock', 'RLock',
                                               'BoundedSemaphore', 'Barrier')}
 
 
+_LOCK_T = type(_threading.Lock())
+_RLOCK_T = type(_threading.RLock())
+
+
+def _sim_twin(val):
+    """A fresh simulated object for a real synchronisation object, or None."""
+    if isinstance(val, _LOCK_T):
+        return core.SimLock()
+    if isinstance(val, _RLOCK_T):
+        return core.SimRLock()
+    if isinstance(val, _REAL['Event']):
+        return core.SimEvent()
+    if isinstance(val, _REAL['Condition']):
+        return core.SimCondition()
+    if isinstance(val, _REAL['BoundedSemaphore']):
+        return core.SimBoundedSemaphore(val._initial_value)
+    if isinstance(val, _REAL['Semaphore']):
+        return core.SimSemaphore(val._value)
+    return None
+
+
 def _for_library(sim, real):
     """Callable bound in place of a standard-library class for the duration of a run."""
     if isinstance(real, type):
@@ -430,6 +451,15 @@ class SimEnv:
                             raise core.HarnessError(f'cannot simulate {val.__name__}, a subclass of a threading / '
                                                     f'queue class ({e})')
             self._set(mod, 'open', fs.open)
+            # synchronisation objects created when the module was imported (a module-level guard lock, a
+            # class-level condition) are real: a simulated thread pre-empted while holding one would make the
+            # next one block for real.  They get a simulated twin for the run.
+            holders = [mod] + [v for v in vars(mod).values() if isinstance(v, type) and getattr(v, '__module__', None) == mname]
+            for h in holders:
+                for attr, val in list(vars(h).items()):
+                    twin = _sim_twin(val)
+                    if twin is not None:
+                        self._set(h, attr, twin)
         self._set(m_cu, 'pkg_resources', VersionStub(self.version))
         # a change that reaches for the standard-library names at call time is simulated too: the
         # module attributes become factories that hand the simulated class to callers inside the
